@@ -9,6 +9,12 @@ Proof: coq/theories/BatchDB/{StepFrame,Cancel,Idem}.v over the frozen model Batc
 Oracle: harness/batchdb/oracles.py::c09 (ranges contiguous after every op, a re-sent accepted request changes nothing and
 create_batch / create_update answer identically, ids of inserted jobs = start + relative - 1) + the client half on the
 real aioclient classes (the id a Job / JobGroup object holds after Batch.submit() = start + relative - 1 of the spec it sent).
+
+Overlapping deliveries (history op "race", harness/batchdb/race.py; corpus/C09/races.json + race mode of gen.py): the shared tie
+accepts a race iff it agrees with the model in one of the two serial orders (corr.race_readings; Props_C09.C09_retry_commutes,
+C09_race_updates_adjacent say what those orders are); oracles.c09_race (state after a request and its overlapping retry = state when
+the first of them had finished; equal answers; two update-creates get disjoint ranges that are the rows of the updates table) and
+_race_serial_oracle below (the real code re-run serially `A; B`, `B; A`, single delivery) are the property on the implementation alone.
 """
 from harness import core
 from harness.core import Corr, Disagreement
@@ -34,8 +40,33 @@ META = dict(
                'contiguous, pairwise disjoint and in update order, and (batch, update id) is a key (C09_ranges*, C09_update_key); (3) the id the '
                'server assigns to a spec\'s job equals start + relative - 1, the value aioclient.Job._submit computes; over every history the '
                'triple answered by create-update determines the ids under which an accepted bunch stores its jobs and their relative groups '
-               '(C09_client_ids).',
-    level_note='Trusted: Coq kernel; the sampled model-vs-implementation correspondence and the minisql engine. The client side is MODELLED as the '
+               '(C09_client_ids). (4) OVERLAPPING deliveries: for a request and its verbatim retry the two serial orders are one outcome, the state '
+               'of a single delivery with both deliveries answered alike (C09_retry_commutes, any state); two update-creates of one batch that both '
+               'reserve a new range get, in either serial order, adjacent hence disjoint ranges -- the one served second immediately after the one '
+               'served first (C09_race_updates_adjacent / _disjoint, every history): the two serial orders differ exactly in who gets which range. '
+               'These theorems are about SERIAL executions of the model; that the real code, run with two requests overlapping, is serialisable '
+               'is CHECKED, not proved: the history op "race" (harness/batchdb/race.py) runs the real handlers of two requests A, B on the same '
+               'in-memory database so that A is suspended after k SQL statements of its read-only prefix (top-level SELECTs, locking or not, '
+               'possibly spanning several transactions of the handler; never after an INSERT/UPDATE/DELETE/CALL), then B runs -- to completion, '
+               'or, if it needs a lock A holds, up to that statement, then A finishes, then B resumes --, then A finishes. Executed interleavings '
+               'are exactly: "A paused after a read-only prefix of k statements, B to completion (or blocked until A has finished)", for every k '
+               'of the hand-written corpus/C09/races.json (every pause point of create_batch, create_update, create_groups, create_jobs, commit '
+               'against their retry and against another client\'s request on the same batch) and a few random ones per family run. The tie '
+               'accepts a race iff answers and state equal the model run in one of the two serial orders; the C09 oracle re-runs the same prefix '
+               'on the real code with `A; B`, `B; A` and (retry) a single delivery and demands equality with one serial order / with the single delivery.',
+    level_note='Lock and visibility model of the race runs (trusted, harness/batchdb/race.py): TABLE-granular and conservative -- SELECT..FOR UPDATE '
+               'takes X, LOCK IN SHARE MODE takes S on every table the statement mentions, until the transaction ends; a statement of the running '
+               'request waits (is delayed until the other request has finished) when its static may-touch footprint (targets, foreign-key parents and '
+               'children, triggers, called routines) conflicts; plain SELECTs never wait; a transaction\'s plain SELECTs read the snapshot taken at its first '
+               'plain SELECT (copied tables swapped in), locking reads and DML read the latest committed rows (InnoDB REPEATABLE READ). Coarser locks only '
+               'serialise more: every executed schedule is one InnoDB can produce with the same reads (a statement blocked here is the same statement '
+               'arriving later there). Situations outside the model (the blocked request already has uncommitted writes; a lock cycle, which with table '
+               'granularity need not be an InnoDB deadlock -- the 1213 + retry path of gear.transaction is therefore NOT exercised; a consistent read of a '
+               'table written by both transactions; routine-internal reads under a stale snapshot) are detected and the two requests are then run serially '
+               '(counted in the evidence as race/serial:*). NOT explored: finer interleavings in which BOTH transactions have pending writes (A paused '
+               'after a write), more than two overlapping requests, overlaps with driver/worker transactions, row-level lock behaviour (gap locks, real '
+               'deadlocks). '
+               'Trusted: Coq kernel; the sampled model-vs-implementation correspondence and the minisql engine. The client side is MODELLED as the '
                'function start + relative - 1 and tied to the real Job._submit / JobGroup._submit / Batch.submit code by a differential smoke test '
                '(real classes, stubbed network), not by a translator; HTTP transport, the fast-path endpoints (one transaction = create-update + '
                'bunch + commit in the model\'s interleaving semantics) and client-side bunching (C19) are not part of these theorems. '
@@ -44,9 +75,14 @@ META = dict(
 )
 TRUSTED = family.COMMON_TRUSTED + [
     'harness/impl/c09_client_ids.py: real aioclient Batch/Job/JobGroup driven offline with Batch._submit stubbed (the start ids the server answers are inputs)',
+    'harness/batchdb/race.py + the race hooks of fakedb.py: table-granular lock table and snapshot reads standing in for InnoDB REPEATABLE READ when two '
+    'requests overlap (pause point, blocking = delaying the statement until the other request finished, serial fallback when outside the model)',
 ]
 ASSUMPTIONS = family.COMMON_ASSUMPTIONS + [
     'none of Legal.v is used: every C09 theorem holds for arbitrary transactions (the invariants are proved with run_invariant)',
+    'overlapping requests: only the interleavings "A paused after a read-only prefix, B to completion or blocked until A finished" are executed; MySQL '
+    'runs the service at REPEATABLE READ with the locking reads written in the code (FOR UPDATE / LOCK IN SHARE MODE); coarser-than-InnoDB locks never '
+    'produce a schedule InnoDB cannot produce',
 ]
 
 _family_oracle = family.oracle_for(ID)
@@ -178,11 +214,103 @@ def _client_oracle(ctx, cases):
     return fails, n
 
 
+def _race_serial_oracle(ctx, named_histories, results):
+    """Overlapping deliveries, on the implementation alone: for every executed race op (two requests A, B overlapping as described in
+    META / harness/batchdb/race.py) of the given histories the SAME prefix is re-run on the real code with `A; B`, with `B; A` and --
+    for a verbatim retry -- with a single delivery `A`, one transaction after the other.  The race must be SERIALISABLE: its two
+    answers and the observable state after it equal those of one of the two serial orders; and for a request and its retry the state
+    equals the state after a single delivery and batch-create / update-create / job-bunch / commit are answered as that delivery was."""
+    from harness.core import Failure
+    from harness.batchdb import corr as C
+    jobs = []          # (name, history, index of the race op, entry)
+    for name, h, ents in zip(*named_histories, results):
+        for i, (op, ent) in enumerate(zip(h, ents)):
+            info = C.race_info(ent) if C.is_race(op) else None
+            if info is not None and info.get('mode') == 'overlap' and info.get('paused'):
+                jobs.append((name, h, i, ent, info))
+    serial, meta = [], []
+    for name, h, i, ent, info in jobs:
+        a, b = h[i]['first'], h[i]['second']
+        serial.append(h[:i] + [a, b])
+        serial.append(h[:i] + [b, a])
+        single = a == b
+        if single:
+            serial.append(h[:i] + [a])
+        meta.append(single)
+    fails, seen = [], set()
+    stats = {'races': len(jobs), 'serial_runs': len(serial), 'blocked': sum(1 for j in jobs if j[4].get('blocked_on')),
+             'with_snapshot_reads': sum(1 for j in jobs if j[4].get('stale_reads')), 'matches_first_second': 0, 'matches_second_first': 0,
+             'kinds': {}}
+    if not serial:
+        return fails, stats
+    res = C.run_impl(ctx, serial, 'last', timeout=1200)['results']
+    it = iter(res)
+    for (name, h, i, ent, info), single in zip(jobs, meta):
+        a, b = h[i]['first'], h[i]['second']
+        kind = f"{a['op']}-vs-{'retry' if single else b['op']}"
+        stats['kinds'][kind] = stats['kinds'].get(kind, 0) + 1
+        ab, ba = next(it), next(it)
+        one = next(it) if single else None
+        raced = (info['first'], info['second'], ent['obs'])
+        s_ab = (ab[i]['result'], ab[i + 1]['result'], ab[i + 1]['obs'])
+        s_ba = (ba[i + 1]['result'], ba[i]['result'], ba[i + 1]['obs'])
+        m_ab, m_ba = raced == s_ab, raced == s_ba
+        stats['matches_first_second'] += m_ab
+        stats['matches_second_first'] += m_ba
+        case = {'history': h[:i + 1], 'source': name}
+        if not (m_ab or m_ba):
+            key = f'C09:race-not-serialisable:{kind}'
+            if key not in seen:
+                seen.add(key)
+                import oracles
+                detail = {'pause': h[i].get('pause'), 'raced_answers': [info['first'], info['second']],
+                          'first;second answers': [s_ab[0], s_ab[1]], 'second;first answers (first, second)': [s_ba[0], s_ba[1]],
+                          'state_vs_first;second': oracles.diff_obs(s_ab[2], raced[2]), 'state_vs_second;first': oracles.diff_obs(s_ba[2], raced[2]),
+                          'events': info.get('events')}
+                fails.append(Failure(key, f'{key}: {detail}'[:600], case, {'serial': [s_ab[:2], s_ba[:2]]}, detail))
+        if single and 'ok' in one[i]['result'] and not (a['op'] == 'commit' and one[i]['result']['ok'].get('rc')):
+            if one[i]['obs'] != raced[2]:
+                key = f'C09:race-retry-differs-from-single-delivery:{a["op"]}'
+                if key not in seen:
+                    seen.add(key)
+                    import oracles
+                    detail = {'pause': h[i].get('pause'), 'raced_answers': [info['first'], info['second']], 'single_delivery_answer': one[i]['result'],
+                              'state_after_race_vs_single_delivery': oracles.diff_obs(one[i]['obs'], raced[2]), 'events': info.get('events')}
+                    fails.append(Failure(key, f'{key}: {detail}'[:600], case, one[i]['result'], detail))
+            elif a['op'] != 'create_groups' and not (info['first'] == info['second'] == one[i]['result']):
+                key = f'C09:race-retry-answered-unlike-single-delivery:{a["op"]}'
+                if key not in seen:
+                    seen.add(key)
+                    detail = {'pause': h[i].get('pause'), 'raced_answers': [info['first'], info['second']], 'single_delivery_answer': one[i]['result']}
+                    fails.append(Failure(key, f'{key}: {detail}'[:600], case, one[i]['result'], detail))
+    return fails, stats
+
+
+def _race_histories(ctx):
+    doc = family.shared_run(ctx)
+    impl = doc.get('impl')
+    if impl is None:
+        return ([], []), []
+    names, hs, res = [], [], []
+    for name, h, ents in zip(doc['names'], doc['histories'], impl['results']):
+        if name.startswith('tieonly/'):
+            continue
+        if any(isinstance(op, dict) and op.get('op') == 'race' for op in h):
+            names.append(name)
+            hs.append(h)
+            res.append(ents)
+    return (names, hs), res
+
+
 def oracle(ctx, budget):
     fails, stats = _family_oracle(ctx, budget)
     cfails, n = _client_oracle(ctx, _cases(ctx))
     stats.setdefault('histograms', {})['oracle_C09_client_specs'] = {'specs': n, 'failures': len(cfails)}
-    return fails + cfails, stats
+    named, res = _race_histories(ctx)
+    rfails, rstats = _race_serial_oracle(ctx, named, res)
+    stats['histograms']['oracle_C09_races'] = rstats
+    have = {f.key for f in fails}
+    return fails + [f for f in rfails if f.key not in have] + cfails, stats
 
 
 def replay(ctx, doc):
@@ -190,4 +318,13 @@ def replay(ctx, doc):
     if isinstance(case, dict) and 'client_case' in case:
         fails, n = _client_oracle(ctx, [case['client_case']])
         return {'client_case': case['client_case'], 'specs': n, 'oracle': [f.key for f in fails]}
-    return family.replay(ctx, doc)
+    out = family.replay(ctx, doc)
+    h = case.get('history') if isinstance(case, dict) else None
+    if h and any(isinstance(op, dict) and op.get('op') == 'race' for op in h):
+        from harness.batchdb import corr as C
+        res = C.run_impl(ctx, [h], 'all')['results']
+        rf, rs = _race_serial_oracle(ctx, (['replay'], [h]), res)
+        out['race_oracle'] = [f.key for f in rf]
+        out['race_stats'] = rs
+        out['race_reports'] = [C.race_info(e) for op, e in zip(h, res[0]) if C.is_race(op)]
+    return out
